@@ -23,8 +23,8 @@ def bounded(tier, seed):
 
 MANIFEST = dict(
     category="other",
-    text='Bounded stand-in only (labelled bounded): executable contracts of the substrate queries evaluated on all small DAGs/digraphs, several query orders and cache states, against BFS and brute-force antichain enumeration.',
+    text='Contract-based proofs on the real source: stDAG.reachable_nodes_from (reverse-topological DP fix-point) and the per-node reachability caches of stDiGraph (cache invariant as pre- and postcondition, any query order) + bounded stand-in: executable contracts of all substrate queries on all small DAGs/digraphs, several query orders and cache states, against BFS and brute-force antichain enumeration.',
     design_ref="DESIGN.md section 3 / C17",
-    note='NOT proved; no obligation is counted as discharged for this property.',
-    technique='bounded runtime-contract check vs BFS / brute-force oracles (stand-in for a contract proof)',
+    note='Antichain / width / peeling / per-edge maxima are decided by the bounded stand-in only.',
+    technique='contract-based deductive verification of the reachability queries (PyVC) + bounded runtime-contract check vs BFS / brute-force oracles',
     engine='rc')
